@@ -487,6 +487,11 @@ def indexIn (keep : List Nat) (l : Nat) : Option Nat :=
 inductive Isolated | remove | merge | keep
 deriving DecidableEq, Repr
 
+/-- the secondary labels of `reindex_labels`: rank of the label among the kept primary labels, `-1` otherwise
+    (whatever `which` is) -/
+def reindexSecondary (keep : List Nat) (sec : List Nat) : List Int :=
+  sec.map fun l => match indexIn keep l with | some i => (i : Int) | none => -1
+
 /-- `reindex_labels(labels, labels_secondary, which)`; labels become `Int` (−1 = removed).
     Indexing `label_index[labels_keep]` past the secondary table is numpy's IndexError. -/
 def reindexLabels (labels : List Nat) (secondary : Option (List Nat)) (which : Isolated) :
@@ -502,7 +507,7 @@ def reindexLabels (labels : List Nat) (secondary : Option (List Nat)) (which : I
   | some sec =>
     let nLabels := sec.foldl max 0 + 1
     if keep.any (· ≥ nLabels) then throw .indexError
-    pure (prim, some (sec.map fun l => match indexIn keep l with | some i => (i : Int) | none => -1))
+    pure (prim, some (reindexSecondary keep sec))
 
 /-- number of columns of `get_membership(labels)` : `max(labels) + 1` -/
 def membershipCols (labels : List Int) : Nat := (labels.foldl max (-1) + 1).toNat
@@ -515,6 +520,7 @@ def louvainProject (n m : Nat) (a : Mat α) (labels : List Int) : Mat α :=
 
 structure LouvainEmbOut (α : Type) where
   labels : List Int
+  labelsRow : List Int          -- the re-indexed row labels behind `embedding_col_` (a local of the code)
   embedding : Mat α
   embeddingRow : Option (Mat α)
   embeddingCol : Option (Mat α)
@@ -525,13 +531,14 @@ def louvainEmbFit (nRow nCol : Nat) (a : Mat α) (forceBipartite : Bool) (labels
     (which : Isolated) : Except PyErr (LouvainEmbOut α) := do
   if !(forceBipartite || nRow != nCol) then
     let (lab, _) ← reindexLabels labelsNode none which
-    pure { labels := lab, embedding := louvainProject nRow nCol a lab, embeddingRow := none, embeddingCol := none }
+    pure { labels := lab, labelsRow := [], embedding := louvainProject nRow nCol a lab, embeddingRow := none,
+           embeddingCol := none }
   else
     let (lab, labRow) ← reindexLabels labelsCol (some labelsRow) which
     let emb := louvainProject nRow nCol a lab
     let at_ : Mat α := mkMat nCol nRow fun j i => mget a i j
     let ec := louvainProject nCol nRow at_ (labRow.getD [])
-    pure { labels := lab, embedding := emb, embeddingRow := some emb, embeddingCol := some ec }
+    pure { labels := lab, labelsRow := labRow.getD [], embedding := emb, embeddingRow := some emb, embeddingCol := some ec }
 
 end
 
